@@ -54,11 +54,20 @@ func VerifC01RealLeaf() {
 	if victim := vChoose("emptyLeftover", 5); victim > 0 {
 		fs0, err := New(LeafSize(64), Backend(store), Logger(zap.NewNop()))
 		vAssert(err == nil, "new")
-		_, err = fs0.Put(ctx, bytes.NewReader(content))
+		res0, err := fs0.Put(ctx, bytes.NewReader(content))
 		vAssert(err == nil, "put-no-error")
-		if victim-1 < len(store.keys) {
+		// victim 1: the root object; victim k+2: the k-th leaf
+		name := ""
+		if victim == 1 {
+			name = res0.Key.StringWithPrefix("")
+		} else if 64*(victim-1) <= len(res0.Keys) {
+			var lk Key
+			copy(lk[:], res0.Keys[64*(victim-2):64*(victim-1)])
+			name = lk.StringWithPrefix("")
+		}
+		if _, ok := store.data[name]; ok {
 			vCover("empty-leftover-object")
-			store.data[store.keys[victim-1]] = []byte{}
+			store.data[name] = []byte{}
 		}
 	}
 	res, err := fs.Put(ctx, src)
